@@ -12,7 +12,7 @@
 """
 from .lib import iters
 from .lib.discard import result_fates, verdict
-from .lib.effects import Link
+from .lib.effects import Link, guards_of
 from .lib.guards import conditions, conditions_ctx
 from .lib.paths import strip
 from .lib.value import canon, walk
@@ -335,3 +335,45 @@ def pred_views(p):
 
 def same(a, b):
     return a is not None and b is not None and canon(strip(a)) == canon(strip(b))
+
+
+def returned(sl, v):
+    """v with private workspace helpers made transparent: what a helper hands back on success (`Ok(x)` among early-return
+    errors -> x), so that a collection filled inside a helper and returned is the same value as the one filled in place"""
+    v = strip(v)
+    iv = sl.inline_deep(v)
+    if iv == v:
+        return v
+    return strip(sl.mk_unwrap(iv, 1))
+
+
+def same_through_helpers(sl, a, b):
+    return same(a, b) or same(returned(sl, a), returned(sl, b))
+
+
+_OPT_VIEW = ('::as_ref', '::clone', '::as_deref', '::as_mut', '::as_deref_mut')
+
+
+def option_arm(E, e, is_subject):
+    """the arm of a decision on an Option (selected by `is_subject`) that effect e runs in, at any level of its call chain:
+    'Some' / 'None' (`match` / `if let` / `is_some()` / `is_none()`), '?' when contradictory or not a plain arm, None when
+    e is not under such a decision"""
+    found = set()
+    for cd, views, subj in guards_of(E, e):
+        if cd.kind == 'variant':
+            s = strip(subj) if subj is not None else None
+            while s is not None and s[0] == 'call' and len(s[2]) == 1 and s[1].endswith(_OPT_VIEW):
+                s = strip(s[2][0])
+            if s is None or s[0] != 'field' or not is_subject(s) or is_subject(s[1]):
+                continue
+            oc = cd.outcome
+            found.add(next(iter(oc)) if isinstance(oc, frozenset) and len(oc) == 1 and next(iter(oc)) in ('Some', 'None') else '?')
+        elif cd.kind == 'bool':
+            for v, oc in views:
+                v, oc = _peel_not(v, oc)
+                v = strip(v)
+                if v[0] == 'call' and len(v[2]) == 1 and v[1].endswith(('::is_some', '::is_none')) and is_subject(v[2][0]):
+                    found.add('?' if not isinstance(oc, bool) else ('Some' if (oc == v[1].endswith('::is_some')) else 'None'))
+    if not found:
+        return None
+    return found.pop() if len(found) == 1 else '?'
